@@ -42,9 +42,27 @@ func init() {
 	models["bytes.Equal"] = func(f *Frame, st *State, e *ast.CallExpr, recv *Term, args []*Term, sig *types.Signature) []*Term {
 		return []*Term{Eq(args[0], args[1])}
 	}
+	// time.Time: instants are totally ordered by an uninterpreted strict order; the zero Time is a constant
+	timeArg := func(f *Frame, st *State, t *Term) *Term { return t }
+	_ = timeArg
+	models["time.Time.IsZero"] = func(f *Frame, st *State, e *ast.CallExpr, recv *Term, args []*Term, sig *types.Signature) []*Term {
+		return []*Term{Eq(recv, f.c.zeroSort(recv.Sort))}
+	}
+	models["time.Time.Before"] = func(f *Frame, st *State, e *ast.CallExpr, recv *Term, args []*Term, sig *types.Signature) []*Term {
+		return []*Term{f.c.timeLt(recv, args[0])}
+	}
+	models["time.Time.After"] = func(f *Frame, st *State, e *ast.CallExpr, recv *Term, args []*Term, sig *types.Signature) []*Term {
+		return []*Term{f.c.timeLt(args[0], recv)}
+	}
+	models["time.Time.Equal"] = func(f *Frame, st *State, e *ast.CallExpr, recv *Term, args []*Term, sig *types.Signature) []*Term {
+		return []*Term{Eq(recv, args[0])}
+	}
 	models["time.Now"] = func(f *Frame, st *State, e *ast.CallExpr, recv *Term, args []*Term, sig *types.Signature) []*Term {
-		f.c.note("time.Now(): fresh unconstrained value")
-		return f.havocResults(st, sig)
+		f.c.note("time.Now(): fresh unconstrained value (remembered as lastNow())")
+		rs := f.havocResults(st, sig)
+		h := f.c.heapGet(st, "G!lastNow", ArrSort(SInt, rs[0].Sort))
+		f.c.heapSet(st, "G!lastNow", Store(h, IntLit(0), rs[0]))
+		return rs
 	}
 	nop := func(f *Frame, st *State, e *ast.CallExpr, recv *Term, args []*Term, sig *types.Signature) []*Term {
 		return f.havocResults(st, sig)
@@ -793,4 +811,21 @@ func modelCommit(f *Frame, st *State, e *ast.CallExpr, recv *Term, args []*Term,
 	nc := c.heapGet(st, "TX!ncommits", ArrSort(SInt, SInt))
 	c.heapSet(st, "TX!ncommits", Store(nc, IntLit(0), Ite(done, Add(Select(nc, IntLit(0)), IntLit(1)), Select(nc, IntLit(0)))))
 	return []*Term{Ite(failed, f.someError(), IfaceNil)}
+}
+
+// timeLt: strict total order on time.Time values (A-TIME: monotonic-clock details and locations are not modelled;
+// Equal is structural equality).
+func (c *Ctx) timeLt(a, b *Term) *Term {
+	s := a.Sort
+	name := "timeLt"
+	first := !c.declared["fun:"+name]
+	fn := c.declareFun(name, []Sort{s, s}, SBool)
+	if first {
+		c.decls = append(c.decls,
+			fmt.Sprintf("(assert (forall ((a %s)) (! (not (%s a a)) :pattern ((%s a a)))))", s, fn, fn),
+			fmt.Sprintf("(assert (forall ((a %s) (b %s) (c %s)) (! (=> (and (%s a b) (%s b c)) (%s a c)) :pattern ((%s a b) (%s b c)))))", s, s, s, fn, fn, fn, fn, fn),
+			fmt.Sprintf("(assert (forall ((a %s) (b %s)) (! (or (%s a b) (= a b) (%s b a)) :pattern ((%s a b)))))", s, s, fn, fn, fn),
+		)
+	}
+	return App(fn, SBool, a, b)
 }
